@@ -156,7 +156,9 @@ deep_search = run
 
 
 def replay(ctx, data):
-    v = data.get("input") or (data.get("details") or [{}])[-1].get("input")
+    v = sc.replay_input(data)
+    if v is None:
+        return 1
     jobs = [dict(op="solve", game=v["game"], prune=v["prune"])]
     if "transformed" in v:
         jobs.append(dict(op="solve", game=v["transformed"], prune=v["prune"]))
